@@ -135,7 +135,7 @@ func newUploader(rcfg RunConfig) (*uploader, error) {
 	// Set the start time, if it is not provided.
 	startTime := time.Now().UTC()
 	if !rcfg.StartTime.IsZero() {
-		startTime = rcfg.StartTime
+		startTime = rcfg.StartTime.UTC() // report weeks are UTC dates
 	}
 
 	return &uploader{
